@@ -385,6 +385,9 @@ def _merge_single_markers(
     from dep_logic.markers.multi import MultiMarker
     from dep_logic.markers.union import MarkerUnion
 
+    if marker1 == marker2:
+        return marker1
+
     if not (_has_exact_specifier(marker1) and _has_exact_specifier(marker2)):
         return None
 
